@@ -10,9 +10,8 @@
 (* differing from the field inside the set; rt = decode(encode(v)) # v; be = constructed     *)
 (* valid data not decodable; xe = encoding a field changed the other part; le = encoding     *)
 (* another value changed a length; nv[i] = number of distinct values field i was given.      *)
-EXTENDS Layout, Json, IOUtils
+EXTENDS C10Domain, Json, IOUtils
 
-CONSTANTS FullLen, OneLen, OneKinds
 VarN == 2
 
 Recs == ndJsonDeserialize(IOEnv.VF_RECS)
@@ -32,7 +31,7 @@ Touched(ps) == {ps[x][1] : x \in 1..Len(ps)}
 InDomain(fs, run) ==
   /\ Len(fs) >= 1 /\ \A j \in 1..Len(fs) : fs[j].k \in 1..NK /\ fs[j].p \in Parts
   /\ run.ok
-  /\ Len(fs) <= FullLen \/ (Len(fs) <= OneLen /\ \A j \in 1..Len(fs) : fs[j].p = "s" /\ fs[j].k \in OneKinds)
+  /\ InShape(fs)
 
 (* what encoding may / must touch, given the positions pos a field has *)
 EncOk(ps, k, pos) ==
